@@ -167,9 +167,15 @@ def _verify(functions: list[str], budgets=(8, 30, 60), verbose=False):
                 eng.run(q, contracts[q], label=label)
         except Unsupported as e:
             errors.append(Obligation(id=f'{q}::extraction', function=q, cls='X', status='unknown',
-                                     detail=f'construct outside the modelled subset: {e}'))
+                                     detail=f'construct outside the modelled subset: {e}'
+                                            + (f' ({len(eng.vcs)} obligations generated on the paths explored before it are still decided)'
+                                               if eng.vcs else '')))
             if verbose:
                 traceback.print_exc()
+            # partial extraction: the obligations generated before the unsupported construct was reached are proper
+            # verification conditions of complete path prefixes; they are decided (a failure among them is a failed named
+            # obligation), the function as a whole stays undecided
+            all_vcs += eng.vcs
             continue
         except Exception:
             errors.append(Obligation(id=f'{q}::engine', function=q, cls='X', status='error',
@@ -202,7 +208,9 @@ def _verify(functions: list[str], budgets=(8, 30, 60), verbose=False):
 if __name__ == '__main__':
     fns = [a for a in sys.argv[1:] if not a.startswith('--')]
     if not fns:
-        fns = sorted(load_contracts())
+        # call-site summaries of functions that are not under contract themselves are not verification targets
+        fns = sorted(q for q, c in load_contracts().items()
+                     if not (getattr(c, 'external_summary', False) or getattr(c, 'summary_only', False)))
     t = time.time()
     obs, info = verify(fns, verbose=True, use_cache='--cache' in sys.argv)
     for o in obs:
